@@ -14,6 +14,7 @@ the assertion / shape / alias / bounds monitors on.
 """
 from __future__ import annotations
 
+import hashlib
 import itertools
 import json
 import traceback
@@ -127,7 +128,7 @@ def row_bcast(n: size, m: size, dst: [R][n, m], v: [R][m]):
 '''
 
 MUTS = ["hi+1", "hi-1", "lo1", "scale2", "swapkind", "extra", "swapops", "const", "alias",
-        "iter", "leq", "negate", "off1", "drop"]
+        "iter", "leq", "negate", "off1", "drop", "op", "transpose"]
 
 
 class Skip(Exception):
@@ -240,10 +241,14 @@ class KGen:
             return f"-{self.de(e.arg)}"
         if isinstance(e, L.BinOp):
             a, b = self.de(e.lhs), self.de(e.rhs)
+            op = e.op
             if self.mut == "swapops" and not self.mut_done:
                 self.mut_done = True
                 a, b = b, a
-            return f"({a} {e.op} {b})"
+            if self.mut == "op" and not self.mut_done:
+                self.mut_done = True
+                op = {"+": "-", "-": "+", "*": "+", "/": "*"}.get(op, op)
+            return f"({a} {op} {b})"
         if isinstance(e, L.Extern):
             return f"{e.f.name()}({', '.join(self.de(a) for a in e.args)})"
         raise Skip(f"data expr {type(e).__name__}")
@@ -385,6 +390,16 @@ class KGen:
                     ext = exts[d] if sc == 1 else f"2 * ({exts[d]})"
                     slack = rng.choice(["", "", " + 2"])
                     dims.append(f"{ext} + 2{slack}" if ob == "0" else f"{ob} + {ext} + 2{slack}")
+            if self.mut == "transpose" and k >= 2 and not self.mut_done:
+                # the caller accesses the buffer with two of the formal's dimensions exchanged
+                self.mut_done = True
+                ivs = [j for j, q in enumerate(pat) if q[0] == "iv"]
+                a, b = ivs[0], ivs[1]
+                pa, pb = pat[a], pat[b]
+                pat[a] = ("iv", pb[1], pa[2], pa[3])
+                pat[b] = ("iv", pa[1], pb[2], pb[3])
+                m = max(dims[a], dims[b], key=len)
+                dims[a] = dims[b] = f"{dims[a]} + {dims[b]}"
             self.tens[fa.name] = (nm, pat)
             win = rng.random() < 0.3
             shape = ", ".join(dims)
@@ -717,7 +732,7 @@ class Checker:
         if "bad" in ans:
             raise InfraError(f"C05 driver: {ans['bad']}")
         key = (callee_name, json.dumps(blk_j, sort_keys=True), json.dumps(args_j, sort_keys=True))
-        ctx.evaluated(hash(key) & 0xFFFFFFFF, nontrivial=True)
+        ctx.evaluated(hashlib.md5(json.dumps(key).encode()).hexdigest()[:12], nontrivial=True)
         ctx.count("replace-accepted")
         ctx.count(f"accepted:{callee_name}")
         if info.get("mut"):
@@ -903,6 +918,82 @@ def run_case(chk, ctx, exo, cands, cname, mut, idx, replay_src=None):
                 raise InfraError("check_record crashed: " + traceback.format_exc()[-1500:])
 
 
+def applicable(exo, ir):
+    """mutations that change something in a kernel printed from this callee"""
+    from exo.core.LoopIR import LoopIR, T
+    has = {"const": False, "lt": False, "binop": False, "multi": False, "read": False, "for": False}
+
+    def ex(e, data):
+        if isinstance(e, LoopIR.Const) and data:
+            has["const"] = True
+        if isinstance(e, LoopIR.BinOp):
+            if data:
+                has["binop"] = True
+            elif e.op == "<":
+                has["lt"] = True
+            ex(e.lhs, data)
+            ex(e.rhs, data)
+        if isinstance(e, LoopIR.USub):
+            ex(e.arg, data)
+        if isinstance(e, LoopIR.Read) and data:
+            has["read"] = True
+        if isinstance(e, LoopIR.Extern):
+            for a in e.args:
+                ex(a, data)
+
+    def st(ss):
+        if len(ss) > 1:
+            has["multi"] = True
+        for s in ss:
+            if isinstance(s, (LoopIR.Assign, LoopIR.Reduce)):
+                ex(s.rhs, True)
+            elif isinstance(s, LoopIR.For):
+                has["for"] = True
+                st(s.body)
+            elif isinstance(s, LoopIR.If):
+                ex(s.cond, False)
+                st(s.body)
+                st(s.orelse)
+
+    st(ir.body)
+    ranks = [len(a.type.hi) for a in ir.args if isinstance(a.type, T.Tensor) and a.type.is_window]
+    out = ["swapkind", "extra", "negate", "iter"]
+    if has["for"]:
+        out += ["hi+1", "hi-1", "lo1"]
+    if ranks:
+        out += ["scale2"]
+    if has["read"]:
+        out += ["off1"]
+    if has["const"]:
+        out += ["const"]
+    if has["lt"]:
+        out += ["leq"]
+    if has["binop"]:
+        out += ["swapops", "op"]
+    if has["multi"]:
+        out += ["drop"]
+    if len(ranks) >= 2 and len(set(ranks)) < len(ranks):
+        out += ["alias"]
+    if any(r >= 2 for r in ranks):
+        out += ["transpose"]
+    return out
+
+
+def make_jobs(ctx, exo, cands, names):
+    """one plain instance per candidate, and every mutation kind on `k` candidates it applies to"""
+    rng = ctx.rng
+    app = {c: applicable(exo, cands[c]._loopir_proc) for c in names}
+    jobs = [(c, None) for c in names] * ctx.scale(1, 3)
+    k = ctx.scale(2, 8)
+    for m in MUTS:
+        pool = [c for c in names if m in app[c]]
+        rng.shuffle(pool)
+        # prefer generated sub-procedures and instructions alike
+        jobs += [(c, m) for c in pool[:k]]
+    rng.shuffle(jobs)
+    return jobs
+
+
 # F13 of DESIGN.md, verbatim
 F13_SRC = '''
 @proc
@@ -961,21 +1052,20 @@ def run(ctx):
             chk.check_record(r, {"kernel": F13_SRC, "kname": "f13", "op": "replace", "candidate": "sub.cp8",
                                  "mut": None, "n_outer": 1, "pre": 0})
         names = sorted(cands)
-        per = ctx.scale(1, 4)
         if ctx.quick:
             x86n = [n for n in names if n.startswith("x86.")]
             subn = [n for n in names if n.startswith("sub.")]
             ctx.rng.shuffle(x86n)
             names = x86n[:22] + subn
-        idx = 1
-        budget = ctx.scale(150, 900)
-        for cname in names:
-            for rep in range(per):
-                for mut in ([None, ctx.rng.choice(MUTS)] if ctx.quick else [None, None] + ctx.rng.sample(MUTS, 3)):
-                    if ctx.elapsed() > budget:
-                        ctx.count("stopped-on-time-budget")
-                        break
-                    run_case(chk, ctx, exo, cands, cname, mut, idx)
-                    idx += 1
+        t0 = ctx.elapsed()
+        budget = ctx.scale(110, 780)
+        jobs = make_jobs(ctx, exo, cands, names)
+        ctx.extra["jobs"] = len(jobs)
+        for idx, (cname, mut) in enumerate(jobs, 1):
+            if ctx.elapsed() - t0 > budget:
+                ctx.count("stopped-on-time-budget")
+                ctx.extra["jobs_done"] = idx - 1
+                break
+            run_case(chk, ctx, exo, cands, cname, mut, idx)
     finally:
         chk.close()
